@@ -26,6 +26,7 @@ type StreamSchema struct {
 	Families   []string
 	EntityTags []string
 	Shards     uint32
+	Replicas   uint32
 	SegDays    uint32
 	TTLDays    uint32
 }
@@ -85,6 +86,7 @@ func (s *StreamSchema) Install(repo *simmeta.Repo) {
 		Catalog:  commonv1.Catalog_CATALOG_STREAM,
 		ResourceOpts: &commonv1.ResourceOpts{
 			ShardNum:        s.Shards,
+			Replicas:        s.Replicas,
 			SegmentInterval: &commonv1.IntervalRule{Unit: commonv1.IntervalRule_UNIT_DAY, Num: s.SegDays},
 			Ttl:             &commonv1.IntervalRule{Unit: commonv1.IntervalRule_UNIT_DAY, Num: s.TTLDays},
 		},
